@@ -3,7 +3,7 @@ CONSTANTS
   Orders <- OrdersAll
   Dts <- DtsQ
   Targets <- TargQ
-  TsTargets <- TargU
+  TsTargets <- TargV
   MaxTs = 2
   PublicQueue = FALSE
   LeftRenormSite = 0
